@@ -184,8 +184,9 @@ def check_runtime(model, rep):
     ifs = [c_ for c_ in calls_in(f.node) if method_name(c_) == 'if_']
     ok = False
     for i in ifs:
-        t = src(i)
-        if "'!='" in t and "get_attr('shape')" in t and 'shape' in t:
+        t = src(i.args[0]) if i.args else ''
+        # the test is emitted on the node's own block, not nested under another emitted condition
+        if "'!='" in t and "get_attr('shape')" in t and isinstance(i.func, ast.Attribute) and isinstance(i.func.value, ast.Name):
             ok = True
     raises = [c_ for c_ in calls_in(f.node) if method_name(c_) == 'raise_']
     ok = ok and any("Variable('ValueError')" in src(r) for r in raises)
